@@ -7,7 +7,9 @@ for id in $ids; do
   git -C /repo status --short | grep -v '^??' | head -1 | grep -q . && { echo "/repo dirty"; exit 2; }
   if ! git -C /repo apply --check /verif/seeded/$id/patch.diff 2>/dev/null; then echo "$id PATCH-DOES-NOT-APPLY"; continue; fi
   git -C /repo apply /verif/seeded/$id/patch.diff
+  cp /verif/evidence/$id.json /tmp/evidence.$id.bak 2>/dev/null
   ./vcheck $id --tier quick > /tmp/seedmatrix.$id.log 2>&1; rc=$?
   git -C /repo checkout -- .
+  cp /tmp/evidence.$id.bak /verif/evidence/$id.json 2>/dev/null
   echo "$id rc=$rc violations=$(grep -ac '^VIOLATION' /tmp/seedmatrix.$id.log) first=$(grep -a -m1 'signature:' /tmp/seedmatrix.$id.log | cut -c1-140)"
 done
